@@ -361,6 +361,9 @@ fn life_after_recovery(hs: &mut Harness, loads: &[(Vec<u8>, Option<Vec<u8>>)]) -
     let n = hs.universe.len().max(1) as u32;
     let pick = |i: u32| -> u16 { ((i as u64 * 65536 / n as u64) as u16).saturating_add(1) };
     let ops = vec![
+        // first of all, before anything changes the tree: whatever compaction the crash interrupted is
+        // chosen again (same inputs, same output setsum, possibly already linked into sst/)
+        Op::Compact { steps: 24 },
         Op::Put { k: pick(0), sz: 2 },
         Op::Del { k: pick(1 % n) },
         Op::Batch { items: vec![(pick(2 % n), Some(3)), (pick(3 % n), None), (pick(4 % n), Some(1))] },
